@@ -53,8 +53,10 @@ P = {
         "No known class left. Tie: hooks on the scanner and tables (all strings up to length 5 "
         "over the significant alphabet and over a second alphabet with the era / Buddhist letters, the exponent context and the start of General; grammar derivations with the new tokens; all codes), hook on read_styles (random Excel-shaped styles.bin layouts with "
         "colliding colours / names, Coq encoder = Python encoder byte for byte, malformed parts) and generated xlsx/xls/xlsb files "
-        "(xlsb: those styles parts, cells as long or short records) through the public API.",
-   note=TB + " RK bit decoding, text->f64 parsing and atoi on the s attribute are computed by the driver, not modelled.",
+        "(xlsb: those styles parts, cells as long or short records) through the public API; a quarter "
+        "of the xls files are BIFF5 (`Book` stream; FORMAT = ifmt + byte string with a one-byte length under 7 code pages incl. DBCS; "
+        "audit-2 XLS-6a, repaired) with a witness file of length-byte / last-character traps.",
+   note=TB + " RK bit decoding, text->f64 parsing and atoi on the s attribute are computed by the driver, not modelled. The byte layout of the xls FORMAT / XF records is not in NumFmt.v (BIFF8: XlsFile.format_of_record; BIFF5: tie only).",
    technique="Coq proof (token-list induction with scanner-state invariant; finite table sweep) + extracted-model correspondence",
    design_ref="5/C10"),
  "C11": dict(claimed=True,
@@ -76,8 +78,14 @@ P = {
         "repaired in /repo by 55da979). Totality: C12_no_panic_parse_sst (all inputs: not Panic; not OutOfFuel at fuel 1 + total "
         "bytes; 3 x requested capacity <= total bytes), _short_string, _record_iter, _parse_string, _parse_label(_sst), "
         "_sheet_metadata, _wb_strings. Tie: hooks parse_sst/records/parse_string on extracted encodings, malformed fragments "
-        "(outcome-class prediction), generated .xls files through Xls::new.",
-   note=TB + " Code pages other than 1200 and BIFF2-5 string branches are not modelled.",
+        "(outcome-class prediction), generated .xls files through Xls::new. "
+        "Audit-2 XLS-1 (repaired in /repo): the CodePage record of a BIFF8 workbook decides nothing — C12_workbook_strings quantifies over it "
+        "(any 16-bit value or no record: workbook_stream cp / legal_workbook cp), C12_codepage_irrelevant, C12_codepage_record_skipped; "
+        "generators write 17 code pages incl. values unknown to the decoder table, and none; corpus witnesses incl. the repository's "
+        "tests/sheet_name_parsing.xls (JExcelApi, CodePage 1252) read end to end; every .xls fixture goes through the model, the ones it "
+        "declines (Number / RK / MulRk / MergeCells / Formula / Lbl arms, BIFF5 BOF) are listed by name in the evidence (coverage.fixtures). "
+        "C12_nested_substream_skipped: a chart substream nested in a sheet contributes no text cell (the model follows the XLS-2 repair).",
+   note=TB + " BIFF2-5 byte strings under a code page are not modelled (a non-BIFF8 BOF answers unmodelled); witnesses only: BIFF5 workbooks under 8 code pages incl. DBCS (audit-2 XLS-6b, repaired).",
    technique="Coq proof (induction over strings/segments with a reader-position and decoder-state invariant) + extracted-model correspondence",
    design_ref="5/C12"),
  "C15": dict(claimed=True,
@@ -173,7 +181,10 @@ P = {
         "composing C13, C16, C12, C10, this property and C05 (only the glue is new: lbPlyPos offsets, the environment the globals yield). Totality: C02_no_panic_sheet / _sheet_cells / _sheet_at / _records (every byte string at fuel "
         "= length + 1: neither Panic nor OutOfFuel), _cell_record, _formula_value, _dimensions, C02_rk_num_panics_iff. Tie: hooks "
         "rk_num / record iterator / cell parsers on extracted encodings, malformed records (outcome prediction) and generated .xls "
-        "files (BIFF8 in CFB) through Xls::new + worksheet_range.",
+        "files (BIFF8 in CFB) through Xls::new + worksheet_range. Whole file, audit-2 XLS-1 (repaired): a CodePage record of any value is an "
+        "ignorable globals record (XlsFile.gitem_ok / Meta.xjunk_ok), so C02_xls_whole_file_main quantifies over it (Whole_xls_codepage_nonvacuous); "
+        "generated files carry 0-2 CodePage records of 17 values; every .xls fixture of the repository goes through the whole-file model "
+        "(16 agree cell by cell incl. tests/sheet_name_parsing.xls, pinned; VBA-project workbooks and the BIFF5 fixture listed as unmodelled in coverage.fixtures).",
    note=TB + " C02_rk_int_float_x100_agree uses Flocq (the four classical axioms ClassicalDedekindReals.sig_not_dec, sig_forall_dec, "
         "FunctionalExtensionality.functional_extensionality_dep, Classical_Prop.classic); /100.0 and UTF-16 decoding are Section variables "
         "(hardware division cross-checked against extracted Flocq b64_div on every run). The formula token stream is C14's, strings C12's.",
@@ -214,7 +225,7 @@ P = {
         "ciphertext and layouts; the whole Cfb.cfb_new model on files up to 40 kB), FILEPASS of BIFF8 XOR / RC4 and BIFF5 form at "
         "several positions in Workbook and Book streams, manifests with one/many encrypted entries, damaged containers, against "
         "every unencrypted workbook of the other generators and all fixtures, through Xlsx::new, Xlsb::new, Xls::new, Ods::new.",
-   note=TB + " The FORMAT/BoundSheet8/Lbl/ExternSheet/SST arms of the xls globals loop are an abstract parameter `interp` (their own slices model them); "
+   note=TB + " The FORMAT/BoundSheet8/Lbl/ExternSheet/SST arms of the xls globals loop are an abstract parameter `interp` (their own slices model them); a CodePage record naming a page outside the decoder table passes under BIFF8 and fails under BIFF5 (audit-2 XLS-1): the record-by-record instance answers unmodelled there; "
         "VbaProject::from_cfb, zip and quick-xml are outside the model.",
    technique="Coq proof (induction over record lists / event lists / directory entries; composition with the C13 byte-level theorem) + extracted-model correspondence",
    design_ref="5/C20"),
@@ -305,7 +316,11 @@ P = {
         "Meta.ods_workbook / ow_all_names)), C16_rels_roundtrip_*, C16_tables_injective, and "
         "C16_date_flag_reaches_cells_{xlsx,xls,xlsb} composed with C10's date_iff_style theorems. No known class left (four repaired "
         "in /repo). Totality: C16_no_panic_xlsx_open, C16_no_panic_ods_parse_content. Tie: generated workbooks of the four formats "
-        "through sheet_names, sheets_metadata, defined_names, worksheet_range, plus perturbed event lists / byte streams.",
+        "through sheet_names, sheets_metadata, defined_names, worksheet_range, plus perturbed event lists / byte streams. "
+        "xls (audit-2 XLS-1, repaired): the CodePage record (0x0042) of ANY value is an ignorable globals record (Meta.xjunk_ok; the model "
+        "no longer answers unmodelled for values other than 1200), C16_report_xls_any_codepage / C16_codepage_record_skipped_xls; generated "
+        "globals carry 0-2 CodePage records of 17 values; every .xls fixture of the repository goes through Meta.xls_parse_workbook "
+        "(17 agree incl. tests/sheet_name_parsing.xls with CodePage 1252, pinned; the BIFF5 fixture is listed as unmodelled in coverage.fixtures).",
    note=TB + " <> Panic for the xls and xlsb workbook readers as a whole is not stated (tied by the raw tier only); zip and quick-xml are outside the model.",
    technique="Coq proof (induction over sheet / name / record / event lists per format; injective tables) + extracted-model correspondence on generated workbooks",
    design_ref="5/C16"),
@@ -337,7 +352,7 @@ P = {
         "for all texts), over every arrangement of the children of a string cell (citem / opiece widened after audit 2, fixes ODS-1 / ODS-3 / "
         "ODS-4): paragraphs, annotation, drawing objects anchored to the cell or as characters with whatever they hold (same-name nesting to any "
         "depth), the white space of an indented file between the children, comments, phonetic guides — C19_text_survives_ods, "
-        "C19_ods_nonpara_contributes_nothing, C19_ods_ruby_text_contributes_nothing, C19_ods_ruby_is_its_base, C19_ods_layout_independent; UTF-16: round trip and lone-surrogate characterisation for wide_str / decode_to; C19_text_survives_xls (shared / LABEL / formula string of an xls workbook, composed from C12's theorems). No known class left (five "
+        "C19_ods_nonpara_contributes_nothing, C19_ods_ruby_text_contributes_nothing, C19_ods_ruby_is_its_base, C19_ods_layout_independent; UTF-16: round trip and lone-surrogate characterisation for wide_str / decode_to; C19_text_survives_xls_workbook (any CodePage record in the globals) and C19_text_survives_xls (shared / LABEL / formula string of an xls workbook, composed from C12's theorems). No known class left (five "
         "repaired in /repo). Totality: C19_no_panic_read_string / _read_shared_strings / _read_cell / _read_sheet_cells / "
         "_read_sheet_formulas / _ods_cell / _wide_str (all event lists / byte strings). Tie: generated .xlsx, .ods, .xls and .xlsb files "
         "(escape material, CDATA, rich runs, tabs / breaks everywhere; xls shared / inline / formula strings up to 32767 units with CONTINUE cuts) through the public API, hooks wide_str / decode_to.",
